@@ -933,7 +933,8 @@ impl<T: Serialize + for<'de> Deserialize<'de> + Clone + PartialEq + Send + Sync 
     async fn recover_from_snapshot(&self, stats: &mut RecoveryStats) -> Result<()> {
         let snapshots = self.find_snapshots()?;
 
-        for snapshot_path in snapshots.iter().rev() {
+        // find_snapshots() already returns newest first
+        for snapshot_path in snapshots.iter() {
             match self.load_snapshot(snapshot_path).await {
                 Ok((header, loaded_state, checksum)) => {
                     // Verify checksum (over the payload bytes as stored)
